@@ -259,7 +259,7 @@ class Compiler:
         if order:
             nodes = [nodes[i] for i in order]
         if g.get("explicit_edges"):
-            graph = hg.Graph(nodes, name=g.get("name"), edges=self._edges(nodes))
+            graph = hg.Graph(nodes, name=g.get("name"), edges=self._edges(nodes, split=g.get("explicit_edges") == "split"))
         else:
             graph = hg.Graph(nodes, name=g.get("name"))
         touch = bool(g.get("touch"))
@@ -310,7 +310,7 @@ class Compiler:
                 pass
 
     @staticmethod
-    def _edges(nodes: list) -> list:
+    def _edges(nodes: list, split: bool = False) -> list:
         """Explicit edge list that mirrors name inference: one edge per (producer, consumer) with the shared value
         names, plus a (gate, target) edge per gate target - the way a user would spell the topology out by hand."""
         prod = {}
@@ -323,7 +323,11 @@ class Compiler:
                 src = prod.get(p)
                 if src is not None:
                     edges.setdefault((src, n.name), []).append(p)
-        out: list = [(a, b, vals) for (a, b), vals in edges.items()]
+        if split:
+            # one (source, target, value) declaration per value: several declarations may share a node pair
+            out: list = [(a, b, v) for (a, b), vals in edges.items() for v in vals]
+        else:
+            out = [(a, b, vals) for (a, b), vals in edges.items()]
         names = {n.name for n in nodes}
         for n in nodes:
             for t in getattr(n, "targets", []) or []:
